@@ -31,7 +31,7 @@ Discrete(cc) == cc.geom # "Cylindrical"
 ConfigOk(r) ==
   LET cc == CfgOf(r)
       cg == IF r.arc THEN [cc EXCEPT !.minTang = 0, !.maxTang = 0] ELSE cc IN
-  /\ LegalConfig(cg) /\ ~TruncSingleRD(cg)
+  /\ LegalConfigA(cg) /\ ~TruncSingleRD(cg)          \* (segment ranges may be asymmetric: reduce_segment_range)
   /\ r.geom \in {"Cylindrical", "BlocksOnCylindrical", "Generic"}
   /\ (Discrete(cc) => ~r.arc /\ r.span = 1 /\ ~r.ge /\ r.mash = 1 /\ r.tofMash = 0)
   /\ (~r.arc => r.minTang >= -(NV(cc)) + 2 /\ r.maxTang <= NV(cc) - 2)
@@ -116,14 +116,15 @@ RowDiscrete(r) ==
       flip(i) == LET d == (r.fphi[i] - nom6 + 1570796) % 6283185 IN d >= 3141593
       sc(i) == IF flip(i) THEN -r.fs[i] ELSE r.fs[i]
       thc(i) == IF flip(i) THEN -r.fth[i] ELSE r.fth[i]
-  IN /\ Len(r.fs) = n /\ Len(r.fphi) = n /\ Len(r.fm) = n /\ Len(r.fth) = n /\ Len(r.fthm) = n /\ Len(r.fmm) = n
+  IN /\ Len(r.fs) = n /\ Len(r.fphi) = n /\ Len(r.fm) = n /\ Len(r.fth) = n /\ Len(r.fmm) = n
+     /\ Len(r.fthm) = (IF -r.seg \in Segs(c) THEN n ELSE 0)
      \* (crystals of one flat block are collinear: equal s; the Generic map here is a circle: strict)
      /\ \A i \in 1..(n - 1) : IF c.geom = "Generic" THEN sc(i) < sc(i + 1) ELSE sc(i) <= sc(i + 1) + SymTol
      /\ \A i \in 1..n : LET j == 2 - 2 * c.minTang - i IN (j >= 1 /\ j <= n) => Abs(sc(i) + sc(j)) <= SymTol
      \* (Blocks: m is the midpoint on the line's cylinder, not mirrored when the crystal radii differ)
      /\ (c.geom = "Generic") => \A i \in 1..n : Abs(r.fm[i] + r.fmm[i]) <= SymTol
      \* tan(theta) in 1e-6: opposite segments (same view/tang: the same two crystals, rings exchanged)
-     /\ \A i \in 1..n : Abs(r.fth[i] + r.fthm[i]) <= 20
+     /\ (-r.seg \in Segs(c)) => \A i \in 1..n : Abs(r.fth[i] + r.fthm[i]) <= 20
      /\ \A i \in 1..n : (r.seg > 0 => thc(i) > 0) /\ (r.seg < 0 => thc(i) < 0) /\ (r.seg = 0 => Abs(thc(i)) <= 20)
 
 (* ---------------------------- round trips ------------------------------- *)
